@@ -5,6 +5,7 @@ from ..pe import Clos, Evaluator, SymObj, Tag, explore, vkey
 from ..src import Inconclusive, calls, method_calls, render, walk, walk_with_parents
 from ..tables import AST, ATTR, IMPL_FILES, TRAIT_NAMES, VALIDATE, instr_table, kinds, trait_attr_of
 
+TECHNIQUE = "static analysis: syntax-tree rules over validate.rs (path-condition sets of every diagnostic emission, dispatch list by partial evaluation, iteration completeness) compared with confirmed tables"
 LEVEL = "other"
 EXPLANATION = (
     "Completeness of the validator over an open-ended notion of misuse is not decidable statically; what IS decided is that the rules that exist are "
@@ -15,7 +16,8 @@ EXPLANATION = (
     "the final aggregation, and documented misuse classes are not raised with an early `Err(..)?` elsewhere. R5: each documented class has a live emission "
     "site (identified by enclosing fn + guard, never by message wording); validate_struct_attrs' and check_child_errors' guards are checked as truth tables. "
     "R6: validation inspects the instruction expansion will use (= C05.R2). R7: cross-table completeness: a name that is a real instruction at one level "
-    "(type / member) but not at the other is diagnosed (Misplaced / Misnamed) at the other level.")
+    "(type / member) but not at the other is diagnosed (Misplaced / Misnamed) at the other level. "
+    " R1's dispatch list is read off the partial evaluation of `validate` (loops over constant tables run concretely). R8 imports the contracts of the lookups validation reaches. R9 compares, for every diagnostic emission, the complete path condition (if / if-let / match-arm conditions, early exits, iterator filters; alpha-normalised conjunct sets) with the confirmed table o2ov/data/c15_guards.json: superset = class narrowed, subset = valid input rejected, otherwise INCONCLUSIVE. R10 imports the trait-level repeat protocol (C14).")
 NOT_DECIDED = ["that every conceivable misuse has a rule", "that no valid input is rejected by an over-eager rule (only C05.R2's disagreement is reported)", "message wording"]
 
 
@@ -444,6 +446,31 @@ def run(chk):
                 else:
                     chk.bad("R10", "repeat:" + i.key, i.file, i.line, i.what, i.expected, i.found)
     chk.guard("R10", r10)
+
+    def r11():
+        # allow_unknown is a switch of the whole item: once an #[o2o(allow_unknown)] has been seen the look-alike diagnostics stay off
+        # (an input that breaks no rule is never rejected). The flag handed to the parsers may only ever be lowered.
+        from ..tables import ATTR
+        chk.rule("R11", "the `bark` flag (look-alike diagnostics on) is only ever lowered: it starts true and every assignment sets it to false", floor=1)
+        fi = chk.repo.fn(ATTR, "get_data_type_attrs")
+        flags = [st for st in walk(fi.body) if st["k"] == "Let" and st["pat"].get("k") == "PIdent" and st["pat"].get("mut") and st.get("init") is not None and render(st["init"]).strip() == "true"]
+        names = {st["pat"]["name"] for st in flags}
+        # the flag is the mutable bool returned next to the attributes / passed to parse_data_type_instruction
+        passed = {render(c["args"][-1]).strip() for c in calls(fi.body, "parse_data_type_instruction") if c["args"]}
+        names &= passed or names
+        if len(names) != 1:
+            raise Inconclusive(f"get_data_type_attrs: the look-alike diagnostics flag is not identifiable ({sorted(names)})")
+        nm = names.pop()
+        asg = [n for n in walk(fi.body) if n["k"] == "Assign" and render(n["l"]).strip() == nm] + [n for n in walk(fi.body) if n["k"] == "Binary" and n["op"] in ("&=", "|=", "^=") and render(n["l"]).strip() == nm]
+        if not asg:
+            chk.bad("R11", f"get_data_type_attrs:{nm}/never-lowered", ATTR, fi.line, "allow_unknown has no effect: the flag is never lowered")
+        for k_, n in enumerate(asg):
+            rhs = render(n["r"]).replace(" ", "")
+            good = (n["k"] == "Assign" and rhs == "false") or (n["k"] == "Binary" and n["op"] == "&=")
+            bad = n["k"] == "Assign" and rhs != "false"
+            chk.shape("R11", f"get_data_type_attrs:{nm}=#{k_}", good, bad, ATTR, n["line"], what="the look-alike diagnostics flag can be raised again after #[o2o(allow_unknown)] was seen (a later #[o2o(..)] attribute re-enables the diagnostics: valid input rejected)",
+                      expected=f"{nm} = false", found=render(n)[:100])
+    chk.guard("R11", r11)
 
 
 # ---------------------------------------------------------------- R9: complete guard sets of the diagnostic emission sites
